@@ -14,6 +14,7 @@ package main
 
 import (
 	"context"
+	"encoding/hex"
 	"flag"
 	"fmt"
 	"os"
@@ -161,7 +162,7 @@ func (w *wrapSub) Close() error { return w.inner.Close() }
 func recSubDec(l *evlog, id int) message.SubscriberDecorator {
 	f := func(m *message.Message) {
 		c := "n"
-		if message.HandlerNameFromCtx(m.Context()) != "" {
+		if message.SubscribeTopicFromCtx(m.Context()) != "" { // the subscribe topic is never empty here; the handler name may be
 			c = "c"
 		}
 		l.add("s" + strconv.Itoa(id) + c)
@@ -174,6 +175,7 @@ func recSubDec(l *evlog, id int) message.SubscriberDecorator {
 
 type hstate struct {
 	idx    int
+	name   string
 	hasPub bool
 	sub    *scriptSub
 	h      *message.Handler
@@ -308,13 +310,32 @@ func runCase(req string) (obs string) {
 			}
 			find(hi).h.AddMiddleware(mws...)
 		case strings.HasPrefix(t, "A") && len(t) >= 3:
-			hi, err := strconv.Atoi(t[1 : len(t)-1])
-			kind := t[len(t)-1]
+			spec, nameTok, named := strings.Cut(t, "=")
+			if len(spec) < 3 {
+				return "bad-op"
+			}
+			hi, err := strconv.Atoi(spec[1 : len(spec)-1])
+			kind := spec[len(spec)-1]
 			if err != nil || (kind != 'p' && kind != 'n') || find(hi) != nil {
 				return "bad-op"
 			}
-			h := &hstate{idx: hi, hasPub: kind == 'p', sub: newScriptSub()}
 			name := "h" + strconv.Itoa(hi)
+			if named { // explicit handler name: hex of its bytes, "-" = the empty name
+				name = ""
+				if nameTok != "-" {
+					b, err := hex.DecodeString(nameTok)
+					if err != nil || len(b) == 0 || strings.ToLower(nameTok) != nameTok {
+						return "bad-op"
+					}
+					name = string(b)
+				}
+			}
+			for _, o := range hs {
+				if o.name == name {
+					return "bad-op" // AddHandler panics on a duplicate name; not what this harness is about
+				}
+			}
+			h := &hstate{idx: hi, name: name, hasPub: kind == 'p', sub: newScriptSub()}
 			if h.hasPub {
 				h.h = r.AddHandler(name, "in-"+name, h.sub, "out-"+name, &recPub{l}, func(msg *message.Message) ([]*message.Message, error) {
 					l.add("h")
@@ -368,7 +389,8 @@ func idList(next *int, n int) string {
 
 // exhaustive: every sequence over {router-level, handler 0, handler 1} up to maxLen, with each AddHandler either at
 // the very beginning or as late as possible (right before the handler's first middleware / before RUN).
-func enumSeqs(maxLen int, emit func(req string, tag string)) {
+func enumSeqs(maxLen int, names [2]string, tag string, emit func(req string, tag string)) {
+	addTok := func(h, variant int) string { return "A" + strconv.Itoa(h) + pubKind(h, variant) + names[h] }
 	var rec func(prefix []byte)
 	rec = func(prefix []byte) {
 		for variant := 0; variant < 4; variant++ {
@@ -377,7 +399,7 @@ func enumSeqs(maxLen int, emit func(req string, tag string)) {
 			var toks []string
 			for h := 0; h < 2; h++ {
 				if early[h] {
-					toks = append(toks, "A"+strconv.Itoa(h)+pubKind(h, variant))
+					toks = append(toks, addTok(h, variant))
 					added[h] = true
 				}
 			}
@@ -389,7 +411,7 @@ func enumSeqs(maxLen int, emit func(req string, tag string)) {
 				case 'a', 'b':
 					h := int(c - 'a')
 					if !added[h] {
-						toks = append(toks, "A"+strconv.Itoa(h)+pubKind(h, variant))
+						toks = append(toks, addTok(h, variant))
 						added[h] = true
 					}
 					toks = append(toks, "H"+strconv.Itoa(h)+":"+id)
@@ -397,11 +419,11 @@ func enumSeqs(maxLen int, emit func(req string, tag string)) {
 			}
 			for h := 0; h < 2; h++ {
 				if !added[h] {
-					toks = append(toks, "A"+strconv.Itoa(h)+pubKind(h, variant))
+					toks = append(toks, addTok(h, variant))
 				}
 			}
 			toks = append(toks, "RUN")
-			emit("chain "+strings.Join(toks, " "), "enum.len"+strconv.Itoa(len(prefix)))
+			emit("chain "+strings.Join(toks, " "), tag+".len"+strconv.Itoa(len(prefix)))
 		}
 		if len(prefix) == maxLen {
 			return
@@ -457,6 +479,9 @@ func randomProg(rng *wh.Rng, maxLen int) string {
 	phases := 1 + rng.Intn(3)
 	var toks []string
 	added := map[int]bool{}
+	usedNames := map[string]bool{}
+	nUnusual := 0
+	_ = nUnusual
 	var addedList []int
 	nDecP, nDecS := 0, 0
 	for ph := 0; ph < phases; ph++ {
@@ -476,7 +501,23 @@ func randomProg(rng *wh.Rng, maxLen int) string {
 				}
 				added[h] = true
 				addedList = append(addedList, h)
-				toks = append(toks, "A"+strconv.Itoa(h)+rng.Pick("p", "p", "n"))
+				name := ""
+				if rng.Intn(3) == 0 { // unusual but legal names; must stay unique within the router
+					pool := []string{"", "h" + strconv.Itoa((h+1)%nH), " ", "H" + strconv.Itoa(h), "in-h0", "out-h1", "router", "h"}
+					cand := pool[rng.Intn(len(pool))]
+					clash := false
+					for o := 0; o < nH; o++ {
+						if cand == "h"+strconv.Itoa(o) && o != h { // would collide with a default name (possibly added later)
+							clash = true
+						}
+					}
+					if !usedNames[cand] && !clash {
+						usedNames[cand] = true
+						name = "=" + wh.HexS(cand)
+						nUnusual++
+					}
+				}
+				toks = append(toks, "A"+strconv.Itoa(h)+rng.Pick("p", "p", "n")+name)
 			case k == 8 && nDecP < 5:
 				c := 1 + rng.Intn(2)
 				if nDecP+c > 5 {
@@ -530,7 +571,11 @@ func main() {
 	}
 	var jobs []job
 	emit := func(req, tag string) { jobs = append(jobs, job{req, tag}) }
-	enumSeqs(maxLen, emit)
+	enumSeqs(maxLen, [2]string{"", ""}, "enum", emit)
+	// the same with unusual but legal handler names: the empty name (what router-level entries carry in HandlerName),
+	// and handler 1 named like handler 0 would be by default
+	enumSeqs(maxLen-2, [2]string{"=-", "=" + wh.HexS("h0")}, "enum_names", emit)
+	enumSeqs(maxLen-2, [2]string{"=" + wh.HexS("in-h1"), "=-"}, "enum_names", emit)
 	enumDecs(maxDec, emit)
 	rng := wh.NewRng(a.Seed)
 	for i := 0; i < nRandom; i++ {
@@ -566,7 +611,14 @@ func main() {
 			case t[0] == 'H':
 				out.Count("ops.handlerMw")
 			case t[0] == 'A':
-				out.Count("ops.addHandler" + t[len(t)-1:])
+				spec, nm, named := strings.Cut(t, "=")
+				out.Count("ops.addHandler" + spec[len(spec)-1:])
+				if named {
+					out.Count("handlers.explicit_name")
+					if nm == "-" {
+						out.Count("handlers.empty_name")
+					}
+				}
 			case t[0] == 'P':
 				out.Count("ops.pubDec")
 			case t[0] == 'S':
